@@ -41,7 +41,11 @@ def stripNl (s : List Char) : List Char :=
   | '\n' :: r => r.reverse
   | _ => s
 
-def parseTz (s : List Char) : Option Int := parseCore (stripNl s)
+/-- `parse_timezone` since fix F47 (`fullmatch`): exactly the documented format -/
+def parseTz (s : List Char) : Option Int := parseCore s
+
+/-- before it (`re.match` with a pattern ending in `$`): one trailing newline was let through -/
+def parseTzLenient (s : List Char) : Option Int := parseCore (stripNl s)
 
 /-- The pinned behaviour before the fix (minutes negated only when the hour part is
     negative), kept to show what the theorem excludes. -/
